@@ -1,6 +1,7 @@
 package props
 
 import (
+	"io"
 	"bytes"
 	"fmt"
 
@@ -119,7 +120,11 @@ func c05Cut(r *core.Run, s Stream, level, cut int, sm *siteMap, srcKind ...int) 
 	switch {
 	case src != 0 || drain != 0:
 		pan = core.Guard(func() {
-			rd, e := openReaderDict(s.Fmt, sourceOf(src, s.Data[:cut]), 0)
+			source := sourceOf(src, s.Data[:cut])
+			if c, ok := source.(io.Closer); ok {
+				defer c.Close()
+			}
+			rd, e := openReaderDict(s.Fmt, source, 0)
 			if e != nil {
 				err = e
 				return
